@@ -62,6 +62,15 @@ func NewRequestContext(ctx context.Context, req *envoy_auth.CheckRequest) *Reque
 		}
 	}
 
+	// envoy hands the request target over as received (no decoding is performed), possibly including
+	// the query. The HTTP services see the path in that form in RawPath and its decoded form in Path
+	rawPath, rawQuery, _ := strings.Cut(req.GetAttributes().GetRequest().GetHttp().GetPath(), "?")
+	if query := req.GetAttributes().GetRequest().GetHttp().GetQuery(); len(query) != 0 {
+		rawQuery = query
+	}
+
+	path, _ := url.PathUnescape(rawPath)
+
 	return &RequestContext{
 		ctx:        ctx,
 		ips:        clientIPs,
@@ -70,8 +79,9 @@ func NewRequestContext(ctx context.Context, req *envoy_auth.CheckRequest) *Reque
 		reqURL: &url.URL{
 			Scheme:   req.GetAttributes().GetRequest().GetHttp().GetScheme(),
 			Host:     req.GetAttributes().GetRequest().GetHttp().GetHost(),
-			Path:     req.GetAttributes().GetRequest().GetHttp().GetPath(),
-			RawQuery: req.GetAttributes().GetRequest().GetHttp().GetQuery(),
+			Path:     path,
+			RawPath:  rawPath,
+			RawQuery: rawQuery,
 			Fragment: req.GetAttributes().GetRequest().GetHttp().GetFragment(),
 		},
 		reqBody:         req.GetAttributes().GetRequest().GetHttp().GetBody(),
